@@ -3,7 +3,7 @@
 #   demo passes on the clean tree, fails with the patch, and the repo's test suite (pkg + api) still passes with the patch.
 set -u
 P=$1; V=$2
-OUT=${MUT_OUT:-/tmp/mut-out}/$P; LOG=/tmp/mut-eval; mkdir -p $LOG
+OUT=${MUT_OUT:-/tmp/mut-out}/$P; LOG=${MUT_LOG:-/tmp/mut-eval}; mkdir -p $LOG
 export GOFLAGS=-mod=mod GOPROXY=off GOSUMDB=off GOTOOLCHAIN=local
 PATCH=$OUT/$V.patch.diff
 [ -f "$PATCH" ] || { echo "no patch $PATCH"; exit 2; }
